@@ -1,7 +1,8 @@
 (** * Wasm/CostPositive — both GENERATED schedules are positive on every instruction that can close a
     control-flow cycle (what [MeterBound] needs), and price the delimiters at 0 (what [MeterFlat] needs). *)
 From Coq Require Import NArith List Bool Lia.
-From CB Require Import Wasm.Syntax Wasm.CostCtx Wasm.CostProofs Wasm.Meter Wasm.MeterBound.
+From CB Require Import Wasm.Syntax Wasm.CostCtx Wasm.CostProofs Wasm.Meter Wasm.MeterBound Wasm.MeterFlat.
+From Coq Require Import List.
 From CB Require Gen.CostV0 Gen.CostV1.
 Local Open Scope N_scope.
 
@@ -20,3 +21,18 @@ Proof.
   - intros b L c H Hj. exact (v1_total _ _ _ _ H (jumpy_branch _ Hj)).
   - exact v1_branch.
 Qed.
+
+Theorem flat_agree_v0_v1 : forall m m',
+  (inject CostV0.cfg m = Some m' ->
+   inject_flat CostV0.cfg m (map (fun f => flatten_body (f_body f)) (m_funcs m)) =
+   Some (map (fun f => flatten_body (f_body f)) (m_funcs m'))) /\
+  (inject CostV1.cfg m = Some m' ->
+   inject_flat CostV1.cfg m (map (fun f => flatten_body (f_body f)) (m_funcs m)) =
+   Some (map (fun f => flatten_body (f_body f)) (m_funcs m'))).
+Proof.
+  intros m m'. split; apply MeterFlat.flat_structured_agree; intro L;
+    first [apply (v0_end_else L (ctx_of_module m)) | apply (v1_end_else L (ctx_of_module m))].
+Qed.
+
+Theorem schedules_positive : forall cx, positive_cfg CostV0.cfg cx /\ positive_cfg CostV1.cfg cx.
+Proof. intro cx. exact (conj (positive_v0 cx) (positive_v1 cx)). Qed.
